@@ -17,7 +17,7 @@ Trace == ndJsonDeserialize(TraceFile)
 VARIABLES l, fails
 vars == <<l, fails>>
 
-PriorIsFile(sc) == sc.prior \in {"own", "ownnoop", "older", "garbage"}
+PriorIsFile(sc) == sc.prior \in {"own", "ownnoop", "ownlong", "older", "garbage"}
 
 (* C17 *)
 FailureWritesNothing(r) == LET o == r.obs sc == r.sc IN
@@ -58,6 +58,10 @@ C15(r) == LET o == r.obs sc == r.sc IN
 (* with the default formatter leaves exactly the canonical output            *)
 C16(r) == (r.sc.prior = "ownnoop" /\ r.sc.out = "file" /\ r.obs.exit = 0) => r.obs.outEqualsRef
 
+(* C14 at the command line: the same command gives the same bytes whatever   *)
+(* an earlier generation left at -out                                        *)
+C14(r) == (r.sc.prior \in {"own", "ownnoop", "ownlong"} /\ r.sc.out = "file" /\ r.obs.exit = 0) => r.obs.outEqualsRef
+
 (* conformance with the prediction of spec/Cli.tla *)
 Conforms(r) == LET o == r.obs p == r.pred IN
     /\ o.exit = p.exit
@@ -65,7 +69,7 @@ Conforms(r) == LET o == r.obs p == r.pred IN
     /\ (p.srcOnStdout = "full") <=> (o.exit = 0 /\ r.sc.out = "stdout")
 
 Check(name, ok) == IF ok THEN {} ELSE {name}
-Verdict(r) == Check("C15", C15(r)) \cup Check("C16", C16(r)) \cup Check("C17", C17(r)) \cup Check("C18", C18(r)) \cup Check("C19", C19(r))
+Verdict(r) == Check("C14", C14(r)) \cup Check("C15", C15(r)) \cup Check("C16", C16(r)) \cup Check("C17", C17(r)) \cup Check("C18", C18(r)) \cup Check("C19", C19(r))
               \cup Check("drift", Conforms(r))
 
 Init == l = 1 /\ fails = {}
